@@ -10,7 +10,11 @@ use std::sync::{Arc, Mutex};
 
 #[derive(Serialize, Deserialize, Clone, Debug)]
 pub struct WinCase { pub hash_seed: u64, pub width: usize, pub slide: usize, pub start: usize, pub items: Vec<(u32, usize)>, pub non_empty_strategy: bool, pub channel: bool, pub shuttle_seed: u64, pub pct: bool, #[serde(default)] pub prob_mask: u64, /// flush() is called before these arrival indices (callback path); the merged report it emits is not a window report
-    #[serde(default)] pub flush_at: Vec<usize> }
+    #[serde(default)] pub flush_at: Vec<usize>,
+    /// channel variant: the consumer hangs up (drops its receiver) after this many reports while a callback stays registered (0 = never)
+    #[serde(default)] pub hangup_after: usize,
+    /// drive the same stream through WindowRunner as well, draining its channel at these arrival indices and once after stop()
+    #[serde(default)] pub runner_drains: Option<Vec<usize>> }
 pub struct C09;
 type Content = Vec<(u32, usize)>;
 
@@ -28,7 +32,7 @@ pub fn shuttle_run<F: Fn() + Send + Sync + 'static>(seed: u64, pct: bool, max_st
 impl Prop for C09 {
     type Case = WinCase;
     fn id(&self) -> &'static str { "C09" }
-    fn expected_counters(&self) -> Vec<&'static str> { vec!["fault.shuttle_scheduled_channel_consumer", "probe.width_smaller_than_slide", "probe.width_not_multiple_of_slide", "fault.burst_same_timestamp", "fault.jump_larger_than_width", "fault.flush_in_the_middle_of_the_stream"] }
+    fn expected_counters(&self) -> Vec<&'static str> { vec!["fault.shuttle_scheduled_channel_consumer", "probe.width_smaller_than_slide", "probe.width_not_multiple_of_slide", "fault.burst_same_timestamp", "fault.jump_larger_than_width", "fault.flush_in_the_middle_of_the_stream", "fault.channel_consumer_hangs_up_mid_stream", "probe.window_runner_drained_after_stop"] }
     fn budget(&self, tier: Tier) -> Budget { match tier { Tier::Quick => Budget { runs: 60_000, wall_s: 60, recheck: 40 }, Tier::Thorough => Budget { runs: 6_000_000, wall_s: 1000, recheck: 200 } } }
     fn hash_seed(&self, c: &WinCase) -> u64 { c.hash_seed }
     fn gen(&self, seed: u64, _i: u64, _t: Tier) -> WinCase {
@@ -43,7 +47,8 @@ impl Prop for C09 {
             items.push((if dup { r.below(5) as u32 } else { k as u32 }, gap));
         }
         let channel = cfg.chance(1, 6);
-        WinCase { hash_seed: Rng::sub(seed, "hash").next(), width, slide, start: r.usize(6), items, non_empty_strategy: cfg.chance(1, 6), channel, shuttle_seed: Rng::sub(seed, "shuttle").next(), pct: cfg.chance(1, 2), prob_mask: if cfg.chance(1, 4) { r.next() } else { 0 }, flush_at: if cfg.chance(1, 5) { (0..(1 + r.usize(2))).map(|_| 1 + r.usize(n)).collect() } else { vec![] } }
+        WinCase { hash_seed: Rng::sub(seed, "hash").next(), width, slide, start: r.usize(6), items, non_empty_strategy: cfg.chance(1, 6), channel, shuttle_seed: Rng::sub(seed, "shuttle").next(), pct: cfg.chance(1, 2), prob_mask: if cfg.chance(1, 4) { r.next() } else { 0 }, flush_at: if cfg.chance(1, 5) { (0..(1 + r.usize(2))).map(|_| 1 + r.usize(n)).collect() } else { vec![] },
+            hangup_after: if channel && cfg.chance(1, 2) { 1 + r.usize(4) } else { 0 }, runner_drains: if cfg.chance(1, 5) { Some((0..r.usize(4)).map(|_| r.usize(n)).collect()) } else { None } }
     }
     fn exec(&self, c: &WinCase, ctx: &mut Ctx) -> Option<Violation> {
         if c.width == 0 || c.slide == 0 || c.items.is_empty() { return None; }
@@ -106,12 +111,15 @@ impl Prop for C09 {
         if c.channel {
             let out: Arc<Mutex<Vec<Content>>> = Arc::new(Mutex::new(vec![]));
             let (o2, arr2, ne) = (out.clone(), arrivals.clone(), c.non_empty_strategy);
+            let hang = c.hangup_after; let cb_out: Arc<Mutex<Vec<Content>>> = Arc::new(Mutex::new(vec![])); let cb2 = cb_out.clone();
             let r = shuttle_run(c.shuttle_seed, c.pct, 500_000, move || {
                 let mut report = Report::new(); report.add(ReportStrategy::OnWindowClose); if ne { report.add(ReportStrategy::NonEmptyContent); }
                 let mut win: CSPARQLWindow<u32> = CSPARQLWindow::new(w, s, report, Tick::TimeDriven, "w".to_string());
                 let rx = win.register();
                 let o3 = o2.clone();
-                let h = kolibrie_verif_rt::thread::spawn(move || { while let Ok(cc) = rx.recv() { o3.lock().unwrap().push(snapshot(&cc)); } });
+                // with a hang-up the window also has a callback, which must go on receiving every report after the consumer left
+                if hang > 0 { let cb = cb2.clone(); win.register_callback(Box::new(move |cc: ContentContainer<u32>| { cb.lock().unwrap().push(snapshot(&cc)); })); }
+                let h = kolibrie_verif_rt::thread::spawn(move || { let mut k = 0usize; while let Ok(cc) = rx.recv() { o3.lock().unwrap().push(snapshot(&cc)); k += 1; if hang > 0 && k >= hang { break; } } drop(rx); });
                 for (id, ts) in &arr2 { win.add_to_window(*id, *ts); }
                 win.stop(); drop(win);
                 let _ = h.join();
@@ -119,7 +127,29 @@ impl Prop for C09 {
             ctx.hit("fault.shuttle_scheduled_channel_consumer");
             if let Err((loc, msg)) = r { return Some(Violation::new("channel-consumer-deadlock-or-panic", format!("window + channel consumer under schedule seed {}: {} @ {}", c.shuttle_seed, msg.chars().take(200).collect::<String>(), loc))); }
             let got = out.lock().unwrap().clone(); let want: Vec<Content> = firings.iter().map(|f| f.1.clone()).collect();
-            if got != want { return Some(Violation::new("channel-and-callback-differ", format!("width {} slide {}: callback delivered {} reports, the channel {} (schedule seed {})", w, s, want.len(), got.len(), c.shuttle_seed))); }
+            if hang > 0 && c.flush_at.is_empty() {
+                ctx.hit("fault.channel_consumer_hangs_up_mid_stream");
+                let cbs = cb_out.lock().unwrap().clone();
+                if cbs != want { return Some(Violation::new("callback-disturbed-by-consumer-hangup", format!("width {} slide {}: after the channel consumer hung up (after {} reports) the callback of the same window saw {} reports, a window without that consumer {} (schedule seed {}); first difference at report {}", w, s, hang, cbs.len(), want.len(), c.shuttle_seed, cbs.iter().zip(want.iter()).position(|(a, b)| a != b).unwrap_or(cbs.len().min(want.len()))))); }
+                if got.len() > want.len() || got[..] != want[..got.len()] { return Some(Violation::new("channel-and-callback-differ", format!("width {} slide {}: the channel delivered {:?} before the consumer hung up, the callback sequence starts {:?}", w, s, got, &want[..got.len().min(want.len())]))); }
+            } else if got != want && hang == 0 { return Some(Violation::new("channel-and-callback-differ", format!("width {} slide {}: callback delivered {} reports, the channel {} (schedule seed {})", w, s, want.len(), got.len(), c.shuttle_seed))); }
+        }
+        // ---- the same stream through WindowRunner (push / drain / stop): what its channel hands out, drained at arbitrary moments and
+        // once more after stop(), is the callback sequence
+        if let Some(drains) = &c.runner_drains {
+            if c.prob_mask == 0 && c.flush_at.is_empty() {
+                use kolibrie::rsp::window_runner::{WindowRunner, WindowSpec};
+                let mut strategies = vec![ReportStrategy::OnWindowClose]; if c.non_empty_strategy { strategies.push(ReportStrategy::NonEmptyContent); }
+                let mut runner: WindowRunner<u32> = WindowRunner::new(WindowSpec { width: w, slide: s, report_strategies: strategies, tick: Tick::TimeDriven }, "w".to_string());
+                runner.start_receiver();
+                let mut got: Vec<Content> = vec![];
+                for (k, (id, ts)) in arrivals.iter().enumerate() { if drains.contains(&k) { got.extend(runner.drain().iter().map(snapshot)); } runner.push(*id, *ts); }
+                runner.stop();
+                got.extend(runner.drain().iter().map(snapshot));
+                ctx.hit("probe.window_runner_drained_after_stop");
+                let want: Vec<Content> = firings.iter().map(|f| f.1.clone()).collect();
+                if got != want { return Some(Violation::new("runner-channel-and-callback-differ", format!("width {} slide {}: WindowRunner (drained before arrivals {:?} and after stop) handed out {} reports, the callback of a plain window {}; first difference at report {}", w, s, drains, got.len(), want.len(), got.iter().zip(want.iter()).position(|(a, b)| a != b).unwrap_or(got.len().min(want.len()))))); }
+            }
         }
         if firings.len() >= 2 { ctx.nontrivial(kolibrie_verif_rt::log::fnv(&format!("{} {} {:?}", w, s, arrivals))); }
         if w < s { ctx.hit("probe.width_smaller_than_slide"); }
@@ -141,6 +171,8 @@ impl Prop for C09 {
         if c.non_empty_strategy { out.push(WinCase { non_empty_strategy: false, ..c.clone() }); }
         if c.prob_mask != 0 { out.push(WinCase { prob_mask: 0, ..c.clone() }); }
         if !c.flush_at.is_empty() { out.push(WinCase { flush_at: vec![], ..c.clone() }); }
+        if c.hangup_after > 0 { out.push(WinCase { hangup_after: 0, ..c.clone() }); }
+        if c.runner_drains.is_some() { out.push(WinCase { runner_drains: None, ..c.clone() }); out.push(WinCase { runner_drains: Some(vec![]), ..c.clone() }); }
         out
     }
     fn rule(&self) -> String { "A case is one in-order stream (<= 40 items, bursts with equal timestamps, gaps <= slide, small gaps, jumps far beyond the width, repeated items) pushed into a real CSPARQLWindow with width, slide in 1..12 (independently; width < slide and width not a multiple of slide included) through the callback and - in 1 run in 12 - through the channel with a consumer thread under a seeded shuttle schedule. Oracle over the recorded history: every report is the item set of one aligned interval not after its trigger, triggers strictly increase, intervals are non-decreasing and none is reported twice; with gaps <= slide every non-empty closing interval is reported exactly once; channel and callback agree. Non-trivial = at least 2 reports; distinct = hash of (width, slide, arrivals). A fifth of the streams call flush() once or twice in mid-stream (its merged report is dropped; later reports must be unaffected).".into() }
@@ -168,7 +200,9 @@ fn block_vars(block: &[Pat]) -> BTreeSet<String> { block.iter().flat_map(|p| [p.
 #[derive(Serialize, Deserialize, Clone, Debug)]
 pub struct Ev { pub gap: usize, pub stream: usize, pub s: String, pub p: String, pub o: String, #[serde(default)] pub advance_ms: u64 }
 #[derive(Serialize, Deserialize, Clone, Debug)]
-pub struct SingleCase { pub hash_seed: u64, pub width: usize, pub slide: usize, pub op: u8, pub rules: Vec<dm::Rule>, pub block: Vec<Pat>, pub start: usize, pub events: Vec<Ev>, pub schedules: Vec<(u64, bool)> }
+pub struct SingleCase { pub hash_seed: u64, pub width: usize, pub slide: usize, pub op: u8, pub rules: Vec<dm::Rule>, pub block: Vec<Pat>, pub start: usize, pub events: Vec<Ev>, pub schedules: Vec<(u64, bool)>,
+    /// the client calls stop() (which flushes the window: one more firing over everything still in it) before dropping the engine
+    #[serde(default)] pub stop_first: bool }
 pub struct C10;
 const OPS: [&str; 3] = ["RSTREAM", "ISTREAM", "DSTREAM"];
 
@@ -206,8 +240,12 @@ fn single_scenario(c: &SingleCase, mode: OperationMode, out: Arc<Mutex<Vec<Row>>
     let mut probe = probe_window(c.width, c.slide, conts.clone());
     let mut names: HashMap<Triple, Fact> = HashMap::new();
     let mut ts = c.start; let mut marks = vec![]; let mut contents = vec![];
+    let pauses = c.events.iter().any(|e| e.advance_ms > 0);
+    if pauses { kolibrie_verif_rt::clock::install(1_000_000); }
     for (i, ev) in c.events.iter().enumerate() {
         if i > 0 { ts += ev.gap; }
+        // a quiet stream: wall-clock (simulated) time passes between two items; application time does not depend on it
+        if ev.advance_ms > 0 { kolibrie_verif_rt::clock::advance(ev.advance_ms * 1_000_000); kolibrie_verif_rt::thread::sleep(std::time::Duration::ZERO); }
         let f: Fact = (ev.s.clone(), ev.p.clone(), ev.o.clone());
         let triples = e.parse_data(&format!("<{}> <{}> <{}> .", f.0, f.1, f.2));
         if triples.len() != 1 { return Err(format!("parse_data returned {} triples for one statement", triples.len())); }
@@ -220,7 +258,18 @@ fn single_scenario(c: &SingleCase, mode: OperationMode, out: Arc<Mutex<Vec<Row>>
         if cg.len() > cb { contents.push((i, cg.last().unwrap().iter().map(|t| names[t].clone()).collect())); }
         marks.push(out.lock().unwrap().len());
     }
+    if c.stop_first {
+        // stop() flushes the window (a last firing over the merged content of the windows still open), then closes its channel
+        let cb = conts.lock().unwrap().len();
+        probe.flush();
+        e.stop();
+        let cg = conts.lock().unwrap();
+        if cg.len() > cb { contents.push((c.events.len(), cg.last().unwrap().iter().map(|t| names[t].clone()).collect())); }
+        marks.push(out.lock().unwrap().len());
+    }
+    if pauses { kolibrie_verif_rt::clock::advance(3_600_000_000_000); kolibrie_verif_rt::thread::sleep(std::time::Duration::ZERO); }
     drop(e); // closes the channels: the worker must drain every queued firing and terminate
+    if pauses { kolibrie_verif_rt::clock::uninstall(); }
     // (in multi-thread mode the rows are complete only once every simulated thread has exited: the caller re-reads `out` then)
     let rows = out.lock().unwrap().clone();
     Ok(SingleOut { rows, marks, contents })
@@ -262,10 +311,11 @@ impl Prop for C10 {
         let block: Vec<Pat> = (0..k).map(|i| (if r.chance(1, 5) { node(&mut r) } else { vars[i].to_string() }, if varpred && i == 0 { "?pv".to_string() } else { iri(preds[r.usize(3)]) }, if r.chance(1, 5) { node(&mut r) } else { vars[i + 1].to_string() })).collect();
         let collisions = cfg.chance(1, 3);
         let gapmode = cfg.below(5);
+        let quiet = cfg.chance(1, 3);
         let n = 4 + r.usize(16);
-        let events = (0..n).map(|_| Ev { gap: match gapmode { 0 => r.usize(2), 1 => r.usize(slide + 1), 2 => if r.chance(1, 5) { 2 * width + r.usize(6) } else { r.usize(3) }, 4 => if r.chance(1, 3) { r.usize(width + 1) } else { r.usize(2) }, _ => 1 + r.usize(2) }, stream: 0, s: node(&mut r), p: iri(if collisions { preds[r.usize(3)] } else { "p" }), o: node(&mut r), advance_ms: 0 }).collect();
+        let events = (0..n).map(|_| Ev { gap: match gapmode { 0 => r.usize(2), 1 => r.usize(slide + 1), 2 => if r.chance(1, 5) { 2 * width + r.usize(6) } else { r.usize(3) }, 4 => if r.chance(1, 3) { r.usize(width + 1) } else { r.usize(2) }, _ => 1 + r.usize(2) }, stream: 0, s: node(&mut r), p: iri(if collisions { preds[r.usize(3)] } else { "p" }), o: node(&mut r), advance_ms: if quiet && r.chance(1, 5) { 500 + r.below(5000) } else { 0 } }).collect();
         let ns = if tier == Tier::Quick { 3 } else { 8 };
-        SingleCase { hash_seed: Rng::sub(seed, "hash").next(), width, slide, op: r.below(3) as u8, rules, block, start: r.usize(3), events, schedules: (0..ns).map(|i| (sr.next(), i % 2 == 1)).collect() }
+        SingleCase { hash_seed: Rng::sub(seed, "hash").next(), width, slide, op: r.below(3) as u8, rules, block, start: r.usize(3), events, schedules: (0..ns).map(|i| (sr.next(), i % 2 == 1)).collect(), stop_first: cfg.chance(1, 2) }
     }
     fn exec(&self, c: &SingleCase, ctx: &mut Ctx) -> Option<Violation> {
         if c.events.is_empty() || c.block.is_empty() || c.width == 0 || c.slide == 0 { return None; }
@@ -280,6 +330,7 @@ impl Prop for C10 {
         {
             let mut tss = vec![]; let mut t = c.start; for (i, ev) in c.events.iter().enumerate() { if i > 0 { t += ev.gap; } tss.push(t); }
             for (fi, (i, content)) in a.contents.iter().enumerate() {
+                if *i >= tss.len() { continue; } // the flush firing of stop() is not about an interval
                 let k = (tss[*i] / c.slide) * c.slide; let lo = k.saturating_sub(c.width);
                 let newest: BTreeSet<Fact> = (0..=*i).filter(|j| tss[*j] >= lo && tss[*j] < k).map(|j| (c.events[j].s.clone(), c.events[j].p.clone(), c.events[j].o.clone())).collect();
                 if !newest.is_empty() { ctx.hit("probe.firing_with_a_non_empty_newest_closed_interval"); }
@@ -369,7 +420,9 @@ pub struct MultiCase { pub hash_seed: u64, pub wins: Vec<WinSpec>, pub static_bl
     /// the static N-Triples are loaded before this event index (0 = before streaming starts)
     #[serde(default)] pub static_after: usize,
     /// how the streams are named: 0 `:s<i>`, 1 `<http://e.org/s<i>>`, 2 `<http://host<i>:9000/obs>` (same text after the last ':'), 3 `<urn:plant<i>:temperature>`
-    #[serde(default)] pub stream_naming: u8 }
+    #[serde(default)] pub stream_naming: u8,
+    /// plain engine path only: the R2R operator is given one rule (which can never fire), as applications that reason over window content do
+    #[serde(default)] pub r2r_rule: bool }
 pub struct C11;
 fn stream_decl(c: &MultiCase, i: usize) -> String { match c.stream_naming { 1 => format!("<http://e.org/s{}>", i), 2 => format!("<http://host{}:9000/obs>", i), 3 => format!("<urn:plant{}:temperature>", i), _ => format!(":s{}", i) } }
 fn stream_feed(c: &MultiCase, i: usize) -> String { match c.stream_naming { 1 => if i % 2 == 0 { format!("http://e.org/s{}", i) } else { format!("<http://e.org/s{}>", i) }, 2 => format!("http://host{}:9000/obs", i), 3 => format!("urn:plant{}:temperature", i), _ => format!(":s{}", i) } }
@@ -387,7 +440,8 @@ fn multi_query(c: &MultiCase) -> String {
 fn multi_scenario(c: &MultiCase, mode: OperationMode, out: Arc<Mutex<Vec<Row>>>) -> Result<MultiOut, String> {
     kolibrie_verif_rt::clock::install(1_000_000);
     let policy = match &c.policy { Policy::Wait => SyncPolicy::Wait, Policy::Steal => SyncPolicy::Steal, Policy::Timeout { ms, steal } => SyncPolicy::Timeout { duration: std::time::Duration::from_millis(*ms), fallback: if *steal { Fallback::Steal } else { Fallback::Drop } } };
-    let mut e = if c.cross_rules == 0 { build_engine(&multi_query(c), "", mode, Some(policy), out.clone())? } else {
+    let never = rule_txt(&dm::Rule { prem: vec![("?s".into(), iri("never"), "?o".into())], conc: vec![("?s".into(), iri("never2"), "?o".into())], ..Default::default() });
+    let mut e = if c.cross_rules == 0 { build_engine(&multi_query(c), if c.r2r_rule { &never } else { "" }, mode, Some(policy), out.clone())? } else {
         // one rule that can never fire and one that fires on stream 0's items but derives a predicate no block mentions
         let p0 = c.events.iter().find(|e| e.stream % c.wins.len() == 0).map(|e| e.p.clone()).unwrap_or_else(|| iri("p0"));
         let rules = format!("{{ ?s <:w0{}> ?v .\n  ?s <:w1{}> ?r }}\n=> {{ ?s <:w0{}> ?r }}\n{{ ?s <:w0{}> ?v }}\n=> {{ ?s <:w0{}> ?v }}\n", iri("never1"), iri("never2"), iri("flag"), p0, iri("seen"));
@@ -459,7 +513,7 @@ fn judge_row(c: &MultiCase, r: &Row, contents: &[Vec<(usize, BTreeSet<Fact>)>], 
 impl Prop for C11 {
     type Case = MultiCase;
     fn id(&self) -> &'static str { "C11" }
-    fn expected_counters(&self) -> Vec<&'static str> { vec!["fault.shuttle_schedule_executed", "fault.coordinator_timeout_fired", "probe.consumer_rows_interleaved_with_pushes", "probe.static_block_present", "probe.static_block_over_empty_static_store", "probe.static_data_loaded_mid_run", "probe.cross_window_coordinator_path", "probe.cross_window_path_emitted_rows", "probe.stream_iris_share_their_last_segment", "probe.stream_iris_share_their_last_segment_and_rows_emitted"] }
+    fn expected_counters(&self) -> Vec<&'static str> { vec!["fault.shuttle_schedule_executed", "fault.coordinator_timeout_fired", "probe.consumer_rows_interleaved_with_pushes", "probe.static_block_present", "probe.static_block_over_empty_static_store", "probe.static_data_loaded_mid_run", "probe.cross_window_coordinator_path", "probe.cross_window_path_emitted_rows", "probe.stream_iris_share_their_last_segment", "probe.stream_iris_share_their_last_segment_and_rows_emitted", "probe.r2r_operator_has_a_rule_and_static_data_is_loaded"] }
     fn budget(&self, tier: Tier) -> Budget { match tier { Tier::Quick => Budget { runs: 4000, wall_s: 60, recheck: 20 }, Tier::Thorough => Budget { runs: 250_000, wall_s: 1000, recheck: 60 } } }
     fn hash_seed(&self, c: &MultiCase) -> u64 { c.hash_seed }
     fn gen(&self, seed: u64, _i: u64, tier: Tier) -> MultiCase {
@@ -481,7 +535,7 @@ impl Prop for C11 {
         let ne = if cfg.chance(1, 2) { 6 + r.usize(20) } else { 14 + r.usize(30) };
         let events = (0..ne).map(|_| { let w = r.usize(n); Ev { gap: r.usize(3), stream: w, s: node(&mut r), p: pred(&mut r, w), o: node(&mut r), advance_ms: if r.chance(1, 4) { r.below(150) } else { 0 } } }).collect();
         let ns = if tier == Tier::Quick { 3 } else { 8 };
-        MultiCase { hash_seed: Rng::sub(seed, "hash").next(), wins, static_block, static_data, policy, start: r.usize(3), events, schedules: (0..ns).map(|i| (sr.next(), i % 2 == 1)).collect(), shared_vocab, cross_rules, static_after: if static_late { 1 + r.usize(ne) } else { 0 }, stream_naming: if cfg.chance(1, 2) { 0 } else { 1 + cfg.below(3) as u8 } }
+        MultiCase { hash_seed: Rng::sub(seed, "hash").next(), wins, static_block, static_data, policy, start: r.usize(3), events, schedules: (0..ns).map(|i| (sr.next(), i % 2 == 1)).collect(), shared_vocab, cross_rules, static_after: if static_late { 1 + r.usize(ne) } else { 0 }, stream_naming: if cfg.chance(1, 2) { 0 } else { 1 + cfg.below(3) as u8 }, r2r_rule: cfg.chance(1, 3) }
     }
     fn exec(&self, c: &MultiCase, ctx: &mut Ctx) -> Option<Violation> {
         if c.wins.len() < 2 || c.events.is_empty() || c.wins.iter().any(|w| w.block.is_empty() || w.width == 0 || w.slide == 0) { return None; }
@@ -525,6 +579,7 @@ impl Prop for C11 {
         if c.shared_vocab { ctx.hit("class.windows_share_vocabulary"); } else { ctx.hit("class.disjoint_vocabularies"); }
         if !c.static_block.is_empty() { ctx.hit("probe.static_block_present"); if c.static_data.is_empty() { ctx.hit("probe.static_block_over_empty_static_store"); } if c.static_after > 0 && !c.static_data.is_empty() { ctx.hit("probe.static_data_loaded_mid_run"); } }
         if c.stream_naming >= 2 { ctx.hit("probe.stream_iris_share_their_last_segment"); if !rows_a.is_empty() { ctx.hit("probe.stream_iris_share_their_last_segment_and_rows_emitted"); } }
+        if c.r2r_rule && c.cross_rules == 0 && !c.static_data.is_empty() { ctx.hit("probe.r2r_operator_has_a_rule_and_static_data_is_loaded"); }
         if c.cross_rules > 0 { ctx.hit("probe.cross_window_coordinator_path"); if !rows_a.is_empty() { ctx.hit("probe.cross_window_path_emitted_rows"); } }
         None
     }
@@ -538,6 +593,7 @@ impl Prop for C11 {
         if !matches!(c.policy, Policy::Wait) { out.push(MultiCase { policy: Policy::Wait, ..c.clone() }); }
         if c.cross_rules > 0 { out.push(MultiCase { cross_rules: 0, ..c.clone() }); }
         if c.stream_naming > 0 { out.push(MultiCase { stream_naming: 0, ..c.clone() }); }
+        if c.r2r_rule { out.push(MultiCase { r2r_rule: false, ..c.clone() }); }
         if c.static_after > 0 { out.push(MultiCase { static_after: 0, ..c.clone() }); }
         for (i, e) in c.events.iter().enumerate() { if e.advance_ms > 0 { let mut ev = c.events.clone(); ev[i].advance_ms = 0; out.push(MultiCase { events: ev, ..c.clone() }); } if e.gap > 0 { let mut ev = c.events.clone(); ev[i].gap = 0; out.push(MultiCase { events: ev, ..c.clone() }); } }
         out
